@@ -66,8 +66,53 @@ def norm(o):
     return json.dumps(j, sort_keys=True)
 
 
-def run(adds, with_unversioned, save_load, bundlify=False):
-    """adds: list of (id idx, mod idx, form).  Both stores vs the list model; returns True iff they agree everywhere."""
+# an identity written by hand in the OLD layout (<type>/<id>.json, no per-id directory), which the library still reads
+LEGACY = {"type": "identity", "spec_version": "2.1", "id": "identity--a11b2d2d-f010-4473-83ec-1edf84858f4c", "created": "2019-01-01T00:00:00.000Z",
+          "modified": "2020-01-01T00:00:00.000Z", "name": "legacy", "identity_class": "individual"}
+QUERIES = [
+    ([], lambda d: True),
+    ([Filter("type", "=", "identity"), Filter("modified", ">", MODS[0])], lambda d: d["type"] == "identity" and d.get("modified", "") > MODS[0]),
+    # properties that hold their default value are not written to disk, but a query on them still finds the object
+    ([Filter("revoked", "=", False)], lambda d: d["type"] in ("identity", "tool")),
+    ([Filter("revoked", "!=", True), Filter("type", "!=", "tool")], lambda d: d["type"] == "identity"),
+    # an id whitelist that spans two types, each possibly with several versions
+    ([Filter("id", "in", [IDS[0], IDS[3], IDS[2]])], lambda d: d["id"] in (IDS[0], IDS[3], IDS[2])),
+]
+
+
+def check_stores(stores, model, extras):
+    """every lookup / query of every store against the list model (versions added: model; other content: extras)"""
+    content = [ver(i, m) for (i, m) in model] + list(extras)
+    for s in stores:
+        for q in range(NID):
+            want = [m for (i, m) in model if i == q]
+            got = s.get(IDS[q])
+            if not want:
+                if got is not None or s.all_versions(IDS[q]):
+                    return False
+                continue
+            if got is None or norm(got) != norm(ver(q, max(want))):
+                return False
+            if sorted(norm(o) for o in s.all_versions(IDS[q])) != sorted(norm(ver(q, m)) for m in want):
+                return False
+        for filters, pred in QUERIES:
+            if sorted(norm(o) for o in s.query(list(filters))) != sorted(norm(d) for d in content if pred(d)):
+                return False
+        for u in extras:
+            g = s.get(u["id"])
+            if g is None or norm(g) != norm(u):
+                return False
+            if [norm(o) for o in s.all_versions(u["id"])] != [norm(u)]:
+                return False
+    return True
+
+
+def run(adds, with_unversioned, save_load, bundlify=False, interleave=True, start=None):
+    """adds: list of (id idx, mod idx, form).  Both stores vs the list model; returns True iff they agree everywhere.
+    The stores live through the whole history and (interleave) answer every question before the first and after every addition.
+    start: 0 nothing on disk, 1 empty type directories made beforehand, 2 an identity in the old flat layout written by hand."""
+    if start is None:
+        start = (sum(i + m for (i, m, _f) in adds) + len(adds)) % 3
     ffs = fakefs.FakeFS()
     saved = fakefs.install(F, ffs)
     saved_m = (M.os, M.io) if save_load else None
@@ -77,11 +122,23 @@ def run(adds, with_unversioned, save_load, bundlify=False):
         fstore = F.FileSystemStore("/fs", allow_custom=True, bundlify=bundlify)      # bundlify: every file holds the object wrapped in a bundle
         mstore = M.MemoryStore(allow_custom=True)
         model = []
+        extras = []
+        if start == 1:
+            for t in ("identity", "tool", "x-acme-widget", "marking-definition"):
+                ffs.makedirs("/fs/" + t)
+        elif start == 2:
+            ffs.makedirs("/fs/identity")
+            with ffs.open("/fs/identity/%s.json" % LEGACY["id"], "w") as fh:
+                fh.write(json.dumps(LEGACY))
+            mstore.add(dict(LEGACY))
+            extras.append(LEGACY)
+        if interleave and not check_stores((fstore, mstore), model, extras):
+            return False
         if with_unversioned:
-            fstore.add(dict(UNVERSIONED))
-            mstore.add(dict(UNVERSIONED))
-            fstore.add(dict(UNVERSIONED2))
-            mstore.add(dict(UNVERSIONED2))
+            for u in (UNVERSIONED, UNVERSIONED2):
+                fstore.add(dict(u))
+                mstore.add(dict(u))
+                extras.append(u)
         for (i, m, form) in adds:
             d = ver(i, m)
             try:
@@ -92,47 +149,13 @@ def run(adds, with_unversioned, save_load, bundlify=False):
             mstore.add(form_of(d, form if form != 4 else 1))
             if (i, m) not in model:
                 model.append((i, m))
+            if interleave and not check_stores((fstore, mstore), model, extras):
+                return False          # the same long-lived stores answered before this addition: they must see it now
         if save_load:
             path = mstore.save_to_file("/save/out/bundle.json")
             mstore = M.MemoryStore(allow_custom=True)
             mstore.load_from_file(path)
-        for s in (fstore, mstore):
-            for q in range(NID):
-                want = [m for (i, m) in model if i == q]
-                got = s.get(IDS[q])
-                if not want:
-                    if got is not None or s.all_versions(IDS[q]):
-                        return False
-                    continue
-                if got is None or norm(got) != norm(ver(q, max(want))):
-                    return False
-                if sorted(norm(o) for o in s.all_versions(IDS[q])) != sorted(norm(ver(q, m)) for m in want):
-                    return False
-            everything = sorted(norm(ver(i, m)) for (i, m) in model) + ([norm(UNVERSIONED), norm(UNVERSIONED2)] if with_unversioned else [])
-            if sorted(norm(o) for o in s.query()) != sorted(everything):
-                return False
-            res = sorted(norm(o) for o in s.query([Filter("type", "=", "identity"), Filter("modified", ">", MODS[0])]))
-            if res != sorted(norm(ver(i, m)) for (i, m) in model if i in (0, 1) and m > 0):
-                return False
-            # properties that hold their default value are not written to disk, but a query on them still finds the object
-            res = sorted(norm(o) for o in s.query([Filter("revoked", "=", False)]))
-            if res != sorted(norm(ver(i, m)) for (i, m) in model if i in (0, 1, 3)):
-                return False
-            res = sorted(norm(o) for o in s.query([Filter("revoked", "!=", True), Filter("type", "!=", "tool")]))
-            if res != sorted(norm(ver(i, m)) for (i, m) in model if i in (0, 1)):
-                return False
-            # an id whitelist that spans two types, each possibly with several versions
-            res = sorted(norm(o) for o in s.query([Filter("id", "in", [IDS[0], IDS[3], IDS[2]])]))
-            if res != sorted(norm(ver(i, m)) for (i, m) in model if i in (0, 2, 3)):
-                return False
-            if with_unversioned:
-                for u in (UNVERSIONED, UNVERSIONED2):
-                    g = s.get(u["id"])
-                    if g is None or norm(g) != norm(u):
-                        return False
-                    if [norm(o) for o in s.all_versions(u["id"])] != [norm(u)]:
-                        return False
-        return True
+        return check_stores((fstore, mstore), model, extras)
     finally:
         F.os, F.io = saved
         if saved_m:
